@@ -335,8 +335,14 @@ inductive NormErr where
   | magnitude | badString | badType
   deriving Repr, DecidableEq
 
+/-- `Result<i64, String>` of `normalize_json_value`, error messages reduced to their kind. -/
+inductive NormRes where
+  | ok (t : Int)
+  | error (e : NormErr)
+  deriving Repr, DecidableEq
+
 /-- `TimeParser::normalize_json_value`: site 1, used by `PayloadTimeNormalizer` on STORE. -/
-def normalizeJson : JV → Except NormErr Int
+def normalizeJson : JV → NormRes
   | .int i => match normalizeIntegerEpoch i with
     | some t => .ok t
     | none => .error .magnitude
@@ -511,24 +517,24 @@ def bucketLocal (g : Gran) (weekStart : Nat) (l : Int) : Int :=
     let wd := (day + 3) % 7
     let since := (wd + (7 - (weekStart : Int))) % 7
     (day - since) * 86400
-  | .month =>
-    let (y, m, _) := civilFromDays day
-    daysFromCivil y m 1 * 86400
-  | .year =>
-    let (y, _, _) := civilFromDays day
-    daysFromCivil y 1 1 * 86400
+  | .month => daysFromCivil (civilFromDays day).1 (civilFromDays day).2.1 1 * 86400
+  | .year => daysFromCivil (civilFromDays day).1 1 1 * 86400
 
 /-- `DateTime::from_timestamp(secs, 0)` succeeds iff the day fits chrono's `NaiveDate`. -/
 def chronoMinTs : Int := daysFromCivil minYear 1 1 * 86400
 def chronoMaxTs : Int := daysFromCivil maxYear 12 31 * 86400 + 86399
 
+/-- The bucket start as an instant: bucket in local time (`t + off`), back to UTC. -/
+def bucketInstant (off : Int) (weekStart : Nat) (g : Gran) (t : Int) : Int :=
+  bucketLocal g weekStart (t + off) - off
+
 /-- `CalendarTimeBucketer::bucket_of` for UTC (`off = 0`) or a zone with constant offset `off`
 seconds east: `ts as i64`, fall back to the epoch when chrono cannot represent it, bucket in
-local time, back to UTC, `as u64`. -/
+local time, back to UTC, `as u64`. `none` = the call panics. -/
 def bucketOf (off : Int) (weekStart : Nat) (g : Gran) (ts : Nat) : Option Nat :=
   let t := u64AsI64 (ts % 2 ^ 64)
   let t := if chronoMinTs ≤ t ∧ t ≤ chronoMaxTs then t else 0
-  let b := bucketLocal g weekStart (t + off) - off
+  let b := bucketInstant off weekStart g t
   -- `date_naive() - Duration::days(n)` panics when the week start precedes `NaiveDate::MIN`
   if g = .week ∧ b + off < chronoMinTs then none
   else some (b % 2 ^ 64).toNat
